@@ -14,15 +14,51 @@ for d in sorted(glob.glob(os.path.join(ROOT, "seeded", "*", "meta.json"))):
             by.append("%s (%s%s)" % (c, "obligation only, no failing input" if nfi else "with replay", ": " + how if how else ""))
         else:
             by.append("%s: not reported" % c)
+    rc = os.path.join(os.path.dirname(d), "recheck.json")
+    re_ = ""
+    if os.path.exists(rc):
+        r = json.load(open(rc))
+        if not r.get("applies"):
+            re_ = "patch no longer applies (code repaired since)"
+        else:
+            re_ = ("caught" if r.get("caught") else "NOT REPORTED by %s alone" % name.split("-")[0]) + (
+                " (obligation only)" if any("no-failing-input" in l for l in r.get("lines", [])) else "") + " " + r.get("time", "")[:10]
+    m["_recheck"] = re_
     rows.append((name, m.get("breaks"), "yes" if m["confirmation"].get("confirmed") else "NO", "caught" if m.get("caught") else "MISSED",
-                 (m.get("summary") or "").replace("\n", " ")[:160], (m.get("needs_to_manifest") or "").replace("\n", " ")[:140], " / ".join(by), m.get("history", "")))
+                 (m.get("summary") or "").replace("\n", " ")[:160], (m.get("needs_to_manifest") or "").replace("\n", " ")[:140], " / ".join(by), m.get("history", ""), m["_recheck"]))
 with open(os.path.join(ROOT, "seeded", "SUMMARY.md"), "w") as f:
     f.write("# Seeded changes (written by sub-agents from the property text alone) and what the checks say\n\n")
     f.write("Each row: a change that compiles and passes the 159 tests, confirmed in a scratch worktree (its demonstration fails with it and passes without), "
             "then applied to /repo and checked with the registered quick check. `history` records earlier verdicts before a check was strengthened.\n\n")
-    f.write("| change | breaks | confirmed | verdict | what it does | needs | reported by | history |\n|---|---|---|---|---|---|---|---|\n")
+    f.write("| change | breaks | confirmed | verdict | what it does | needs | reported by | history | re-run of the property's own quick check after the last change of the generators |\n|---|---|---|---|---|---|---|---|---|\n")
     for r in rows:
         f.write("| " + " | ".join(str(x).replace("|", "/") for x in r) + " |\n")
     caught = sum(1 for r in rows if r[3] == "caught")
     f.write("\n%d changes, %d caught by the quick check of the property they break.\n" % (len(rows), caught))
 print(open(os.path.join(ROOT, "seeded", "SUMMARY.md")).read()[-300:])
+
+# ---- harmless rewrites
+rows = []
+for d in sorted(glob.glob(os.path.join(ROOT, "benign", "*", "meta.json"))):
+    m = json.load(open(d))
+    alarms = []
+    for c, v in m.get("checks", {}).items():
+        if v["exit"] != 0:
+            alarms.append(c + ": " + "; ".join(x.strip()[:110] for x in v.get("lines", [])[1:3]))
+    if not m.get("lake_build_ok", True):
+        alarms.append("lake build: " + ",".join(m.get("lake_errors", [])))
+    desc = ""
+    dp = os.path.join(os.path.dirname(d), "description.md")
+    if os.path.exists(dp):
+        desc = open(dp).read().replace("\n", " ")[:200]
+    rows.append((m["id"], ",".join(m.get("files", [])), "quiet" if m.get("quiet") else "REPORTED", ",".join(sorted(m.get("checks", {}))), desc, " / ".join(alarms), m.get("time", "")))
+if rows:
+    with open(os.path.join(ROOT, "benign", "SUMMARY.md"), "w") as f:
+        f.write("# Behaviour-preserving rewrites (written by sub-agents) and what the checks say\n\n"
+                "Each is applied to a private clone; the Gen files are regenerated, the whole Lean project is built and the quick checks of every property "
+                "anchored in a touched file are run (tools/benign_eval.py). `quiet` = nothing reported.\n\n")
+        f.write("| rewrite | files | verdict | checks run | what it does | what was reported | run |\n|---|---|---|---|---|---|---|\n")
+        for r in rows:
+            f.write("| " + " | ".join(str(x).replace("|", "/") for x in r) + " |\n")
+        f.write("\n%d rewrites, %d quiet.\n" % (len(rows), sum(1 for r in rows if r[2] == "quiet")))
+    print(open(os.path.join(ROOT, "benign", "SUMMARY.md")).read()[-120:])
